@@ -759,6 +759,50 @@ def r8_merge(F, res, rid):
         res.ok(rid, "scan-guard", f.loc(), "compatibility scan guarded by table_type != LALR")
     else:
         res.violation(rid, "scan-guard", "the weak-compatibility scan is no longer guarded by the table type", f.loc())
+    # which table types run the scan: LALR_RN is the table GLR uses and LALR_PAGER the one LR uses by default; they must be
+    # the same automaton (RN only adds right-nulled reductions), or a state merged for GLR alone expects - and lexes - a
+    # token LR never looks for there and the two parsers disagree on an LR(1) grammar (C07)
+    VAR = "rustemo_compiler::table::TableType::"
+    runs = {}
+    for p in paths:
+        scan = any(e[0] == "call" and (e[1].endswith("::all") or e[1].endswith("::any") or e[1].endswith("Iterator>::next")) for e in p.events) and \
+            any(is_call(t_, "::ne") or is_call(t_, "::eq") for t_, _v in p.cond)
+        for t_, v in p.cond:
+            if (is_call(t_, "::ne") or is_call(t_, "::eq")) and any(has_field(a, "table_type", "Settings") for a in t_[2]):
+                c = [a for a in t_[2] if isinstance(a, tuple) and a[0] == "const" and isinstance(a[1], str) and a[1].startswith(VAR)]
+                if not c:
+                    runs = None
+                    break
+                named = c[0][1][len(VAR):]
+                eq = is_call(t_, "::eq")
+                for ty in ("LALR", "LALR_PAGER", "LALR_RN"):
+                    holds = (ty == named) == eq
+                    if holds == bool(v) and runs is not None:
+                        runs.setdefault(ty, set()).add(True)
+        if runs is None:
+            break
+    if runs is None or not runs:
+        res.undecided(rid, "merge_state: the table type the compatibility scan is guarded by is not a named constant", f.loc())
+    else:
+        # a type `runs` the scan if some path whose guard admits it goes on into the scan; the guard is a single test, so the
+        # types admitted on the branch that is taken when the test holds are read off the first admitting valuation
+        admitted = set()
+        for p in paths:
+            for t_, v in p.cond:
+                if (is_call(t_, "::ne") or is_call(t_, "::eq")) and any(has_field(a, "table_type", "Settings") for a in t_[2]):
+                    c = [a for a in t_[2] if isinstance(a, tuple) and a[0] == "const" and isinstance(a[1], str) and a[1].startswith(VAR)]
+                    named = c[0][1][len(VAR):]
+                    eq = is_call(t_, "::eq")
+                    # the scan is the only way out of merge_state with `false` once the cores are equal: a path that
+                    # passes the guard and returns false went through the scan
+                    into_scan = any(e[0] == "return" and len(e) > 1 and fmt(e[1]) in ("0", "false") for e in p.events)
+                    if into_scan:
+                        admitted |= {ty for ty in ("LALR", "LALR_PAGER", "LALR_RN") if ((ty == named) == eq) == bool(v)}
+        if admitted == {"LALR_PAGER", "LALR_RN"}:
+            res.ok(rid, "scan-types", f.loc(), "the compatibility scan runs for LALR_PAGER and LALR_RN, not for LALR")
+        else:
+            res.violation(rid, "scan-types", "the weak-compatibility scan runs for %s; it has to run for LALR_PAGER and LALR_RN alike (the "
+                          "GLR table is the LR default table plus right-nulled entries) and not for LALR" % sorted(admitted), f.loc())
     # pairing: new item found by equality with the old kernel item (not positional)
     okp = False
     for cl in F.all_nested_closures(f):
